@@ -530,6 +530,11 @@ class ExtrasMixin:
         self.run.assume(z3.Implies(z3.Select(v["dom"], xt), z3.And(p >= 0, p < v["n"], z3.Select(v["ks"], p) == xt)), persist=True)
         return VInt(p)
 
+    def spec_reached_loop(self, node, frame):
+        """the path reached the loop whose header text contains the given string (for a cut loop: its cut point)"""
+        sub = node.args[0].value
+        return VBool(any(sub in h for h in getattr(self.run, "loops_reached", ())))
+
     def spec_json_ok(self, node, frame):
         v = self.eval(node.args[0], frame)
         return VBool(_fn("json_ok", z3.StringSort(), z3.BoolSort())(v.t))
